@@ -15,10 +15,11 @@ def poisson(kmean: float) -> callable:
             value = np.exp(-kmean) * pow(kmean, k) / factorial(k)
         except OverflowError:
             value = np.inf
-        if np.isfinite(value):
+        if np.isfinite(value) and np.exp(-kmean) >= np.finfo(float).tiny:
             return value
-        # pow(kmean, k) or float(k!) overflowed a double although the pmf itself is
-        # representable: evaluate exp(-m) m^k / k! through its logarithm
+        # pow(kmean, k) or float(k!) overflowed a double, or exp(-kmean) left the normal
+        # double range (means above ~708), although the pmf itself is representable:
+        # evaluate exp(-m) m^k / k! through its logarithm
         return np.exp(k * np.log(kmean) - kmean - lgamma(k + 1))
 
     return p
